@@ -1782,6 +1782,10 @@ def exhaustion_escapes(ctx, b, depth=0):
         if d[0] == 'discr':
             x = d[1]
             is_src = is_pull_term(x) or (x[0] == 'call' and is_next_call(x) and source_stream_root(I, I.spine(x[2][0])[1]))
+            if not is_src and x[0] == 'call' and is_iter_method(x, ('find', 'find_map', 'position', 'last', 'max', 'min', 'reduce')) and x[2]:
+                # `stream.find_map(f)` is None only when the stream ran dry
+                names, root = I.spine(I.normalize(x[2][0]))
+                is_src = source_stream_root(I, root) and not any(y in ITER_CARD_CHANGING for y in names)
             if is_src:
                 cut.append((sbb, r.switch_target(sbb, 0)))
     drains = set()
@@ -1794,6 +1798,27 @@ def exhaustion_escapes(ctx, b, depth=0):
                 drains.add(bb)
         elif c['t'].get('local') and callee_of(c['t']) in ctx.facts.bodies and depth < 3:
             cal = ctx.facts.bodies[callee_of(c['t'])]
+            # a loop-free helper that was handed the source stream and drains it (`count_accepted(iter.values(), ..)`):
+            # its value, as inlined by the analysis, is a draining terminal over that stream
+            if not ctx.cfg(cal).loops():
+                val = c['res']
+                if val is not None and val[0] == 'call' and val[1] == cal.name:
+                    val = I.apply(('fn', cal.name), list(c['args']))
+                dr = False
+                for alt in alternatives(I.normalize(val)) if val is not None else []:
+                    if alt[0] == 'call' and is_iter_method(alt, tuple(DRAIN_METHODS)) and alt[2]:
+                        names, root = I.spine(I.normalize(alt[2][0]))
+                        if source_stream_root(I, root) and not any(x in ITER_CARD_CHANGING for x in names):
+                            dr = True
+                        else:
+                            dr = False
+                            break
+                    else:
+                        dr = False
+                        break
+                if dr:
+                    drains.add(bb)
+                    continue
             # a helper that receives the shared iterator and always runs it to exhaustion
             takes_iter = any('ConcurrentIter' in cal.locals[l]['ty'] or cal.locals[l]['head'].startswith(('ref:param:I', 'param:I')) for l in cal.arg_locals())
             if takes_iter and cal.name not in ctx.slots.tasks and ctx.cfg(cal).loops():
@@ -2061,11 +2086,19 @@ def c02_first(ctx):
                 if not rooted:
                     probs.append('the searched chain is not rooted at the pulled elements: %s' % t_str(root)[:80])
             # what is returned on the match edge is the tested value itself
-            after = cfg.reach(one)
-            for (pred, rb), (val, pc) in r.ret_edges.items():
-                if pred in after and pred not in cfg.reach(zero, avoid={sbb}) | set():
-                    if any(a != inner and a != some(('field', inner, 1, 0)) for a in alternatives(val)):
-                        probs.append('on the match edge the task returns %s, not the match it tested' % t_str(val)[:100])
+            env1 = r.state.get(one)
+            if env1 is not None and len(cfg.pred.get(one, ())) == 1:
+                # continue the analysis from the match edge only: everything returned from there is the tested match
+                r2 = ctx.opa.run(tn, start=one, start_env=env1)
+                val = r2.ret
+                if val is None or any(a != inner and a != some(('field', inner, 1, 0)) for a in alternatives(val)):
+                    probs.append('on the match edge the task returns %s, not the match it tested' % t_str(val)[:100])
+            else:
+                after = cfg.reach(one)
+                for (pred, rb), (val, pc) in r.ret_edges.items():
+                    if pred in after and pred not in cfg.reach(zero, avoid={sbb}) | set():
+                        if any(a != inner and a != some(('field', inner, 1, 0)) for a in alternatives(val)):
+                            probs.append('on the match edge the task returns %s, not the match it tested' % t_str(val)[:100])
             out.inst(key, not probs, t_str(x)[:100], sample={'task': key_of(b), 'search': t_str(x)[:160]})
             for p in probs:
                 out.fail(key, '%s: %s' % (key_of(b), p), b.where())
@@ -2175,6 +2208,15 @@ def check_reduce_body(ctx, out, tb, depth=0):
             return None
         if x[0] == 'call' and x[1] in ctx.facts.bodies and depth < 3:
             cal = ctx.facts.bodies[x[1]]
+            if not ctx.cfg(cal).loops() and not cal.is_closure():
+                # a loop-free helper (`reduce_mapped(values, map, filter, reduce)`): judge what it returns for these arguments
+                y = I.apply(('fn', x[1]), list(x[2]))
+                if y is not None and not is_top(y) and y != x and not (y[0] == 'call' and y[1] == x[1]):
+                    for alt in alternatives(y):
+                        why = chain_reduce_ok(alt)
+                        if why:
+                            return why
+                    return None
             Rc = binary_closure_param(cal)
             idx = [i for i, l in enumerate(cal.arg_locals()) if P(cal.local_name(l)) == Rc]
             if Rc is None or not idx or idx[0] >= len(x[2]) or x[2][idx[0]] != R:
@@ -2230,6 +2272,47 @@ def c03_thread(ctx):
     return out
 
 
+def some_only_if_accepted(ctx, name, depth=0):
+    """does the Option-valued body `name` (a closure or helper) return Some only on paths on which a user filter (a
+    bool-valued user closure) accepted - directly, or by returning the value of a helper with that property"""
+    F = ctx.facts
+    b = F.bodies.get(name)
+    if b is None or depth > 3:
+        return False
+    root = F.root_of(b)
+    fbs = root.fn_bounds()
+    cfg = ctx.cfg(b)
+    r = ctx.run0(name)
+    accept = []
+    for bb, c in r.call_sites():
+        t = c['t']
+        u = is_user_closure_call(t, b) or is_user_closure_call(t, root)
+        if t.get('callee') in ('std::ops::Fn::call', 'std::ops::FnMut::call_mut', 'std::ops::FnOnce::call_once') and b.locals[t['dest']['l']]['ty'] == 'bool':
+            sw = switch_of_call(ctx, b, bb)
+            if sw and sw[1] != sw[2]:
+                accept.append((sw[0], sw[1]))
+    per_path = ctx.path_returns(name)
+    if per_path is not None:
+        edges = [(pth[-2] if len(pth) > 1 else pth[-1], term, pth) for (term, pc, pth) in per_path]
+    else:
+        edges = [(pred, term, None) for (pred, rb), (term, pc) in r.ret_edges.items()] or [(rb, term, None) for (rb, term, pc) in r.returns]
+    if not edges:
+        return False
+    for pred, term, pth in edges:
+        for alt in alternatives(term):
+            if alt[0] == 'variant' and alt[1] == 'std::option::Option' and alt[2] == 0:
+                continue
+            if alt[0] == 'call' and alt[1] in F.bodies and some_only_if_accepted(ctx, alt[1], depth + 1):
+                continue
+            if alt[0] == 'variant' and alt[1] == 'std::option::Option' and alt[2] == 1:
+                if pth is not None and any(a in pth and pth.index(a) + 1 < len(pth) and pth[pth.index(a) + 1] == t_ for (a, t_) in accept):
+                    continue
+                if pth is None and any(cfg.edge_dominates(a, t_, pred) for (a, t_) in accept):
+                    continue
+            return False
+    return True
+
+
 def check_count_body(ctx, out, tb, depth=0):
     I = items(ctx)
     I0 = items0(ctx)
@@ -2274,6 +2357,9 @@ def check_count_body(ctx, out, tb, depth=0):
                     return None
             check_count_body(ctx, out, hb, depth + 1)
             return None
+        if x[0] == 'bin' and x[1] == 'Add' and ('const', 1) in (x[2], x[3]):
+            # 1 + count(rest): the 1 must be on a survivor edge (checked below on the MIR statement that adds it)
+            return chain_count_ok(x[3] if x[2] == ('const', 1) else x[2])
         if not (x[0] == 'call' and is_iter_method(x, ('count',))):
             return 'per-pull value %s is not an Iterator::count over the pulled elements' % t_str(x)[:100]
         names, root = I.spine(x[2][0])
@@ -2315,14 +2401,24 @@ def check_count_body(ctx, out, tb, depth=0):
             sm = helper_pull_summary(ctx, d[1][1])
             if sm and sm['survivors']:
                 accept_edges.append((sbb, r.switch_target(sbb, 1)))
+    # the Some edge of `stream.find_map(f)` when f yields Some only for elements the user filter accepted
+    for sbb, (d, tg) in r.switches.items():
+        if d[0] == 'discr' and d[1][0] == 'call' and is_iter_method(d[1], ('find_map',)) and len(d[1][2]) == 2:
+            f = d[1][2][1]
+            if f[0] == 'closure' and some_only_if_accepted(ctx, f[1]):
+                accept_edges.append((sbb, r.switch_target(sbb, 1)))
     steps = {x for x, t in tb.calls() if is_step_call(t) or (t.get('local') and helper_pull_summary(ctx, callee_of(t)))}
     for bb, blk in tb.blocks.items():
         for st in blk['stmts']:
             rv = st['rv']
-            one_inc = rv['r'] == 'bin' and rv['op'].startswith('Add') and rv['b'].get('k') == 'int' and rv['b'].get('v') == '1'
+            one_inc = rv['r'] == 'bin' and rv['op'].startswith('Add') and ((rv['b'].get('k') == 'int' and rv['b'].get('v') == '1') or
+                                                                          (rv['a'].get('k') == 'int' and rv['a'].get('v') == '1'))
             one_init = rv['r'] == 'use' and rv['o'].get('k') == 'int' and rv['o'].get('v') == '1' and tb.locals[st['lhs']['l']]['ty'] == 'usize' and tb.locals[st['lhs']['l']].get('name')
             if (one_inc or one_init) and bb in r.visited:
-                ok = any(cfg.edge_dominates(a, t_, bb) and bb in cfg.reach(t_, avoid=steps - {bb}) for (a, t_) in accept_edges)
+                # same element: no step to another element between the acceptance and the increment - or neither of them is inside a
+                # loop, so each executes at most once (`Some(first) => 1 + count(rest)`)
+                ok = any(cfg.edge_dominates(a, t_, bb) and (bb in cfg.reach(t_, avoid=steps - {bb}) or
+                                                            (cfg.innermost_loop(bb) is None and cfg.innermost_loop(a) is None)) for (a, t_) in accept_edges)
                 out.inst('C04-THREAD/%s/survivor-%s' % (key_of(tb), 'inc' if one_inc else 'init'), ok, 'counting 1 on the survivor edge')
                 if not ok:
                     out.fail('C04-THREAD/%s/survivor' % key_of(tb), '%s counts 1 on a path that is not guarded by the user filter accepting the element' % key_of(tb), tb.where(st.get('line')))
